@@ -706,3 +706,44 @@ Proof.
   unfold readFd_readv0_arg0, readFd_readv0_arg2. gl. split; [reflexivity|].
   unfold readFd_let_iovcnt in *. revert IC. gl. intros IC. exact IC.
 Qed.
+
+(* ==== buffers share no state (seeded change C01_4: `static char extrabuf[65536]` in readFd) ===================
+   The model is per Buffer object.  A process with several Buffers -- one per connection direction, on several io
+   threads -- is the PRODUCT of their models provided the objects share no state.  That proviso is read off the
+   clang AST of the current sources on every run:
+     readFd_extrabuf_is_automatic : the spill area of Buffer::readFd is an automatic local (not static, not
+                                    thread_local, not extern): one fresh array per call on the calling thread's stack;
+     Buffer_shares_no_state       : class Buffer has no static data member other than the static const constants
+                                    (kCheapPrepend, kInitialSize, kCRLF), no member function has a static / thread_local
+                                    local, no member function refers to a non-const variable declared outside it.
+   Quoted by Properties_C01 (inbound stream of a connection = the bytes of ITS descriptor). *)
+Lemma C10_buffers_share_no_state :
+  readFd_extrabuf_is_automatic = true /\ Buffer_shares_no_state = true.
+Proof. split; reflexivity. Qed.
+
+(* the product the obligation justifies: two Buffer systems (each a [state] with the outputs it has produced) driven
+   by ANY interleaving of operations: each is its own model run on its own operations in their order *)
+Section Product.
+  Variables (S1 S2 O1 O2 : Type) (step1 : S1 -> O1 -> S1) (step2 : S2 -> O2 -> S2).
+  Definition pair_step (s : S1 * S2) (o : O1 + O2) : S1 * S2 :=
+    match o with inl a => (step1 (fst s) a, snd s) | inr b => (fst s, step2 (snd s) b) end.
+  Definition pair_run (s : S1 * S2) (ops : list (O1 + O2)) : S1 * S2 := fold_left pair_step ops s.
+  Definition lefts (ops : list (O1 + O2)) : list O1 := flat_map (fun o => match o with inl a => [a] | inr _ => [] end) ops.
+  Definition rights (ops : list (O1 + O2)) : list O2 := flat_map (fun o => match o with inl _ => [] | inr b => [b] end) ops.
+  Lemma pair_run_split : forall ops s,
+    pair_run s ops = (fold_left step1 (lefts ops) (fst s), fold_left step2 (rights ops) (snd s)).
+  Proof.
+    induction ops as [|o t IH]; intros [s1 s2]; [reflexivity|].
+    unfold pair_run in *. cbn [fold_left]. rewrite IH. destruct o; reflexivity.
+  Qed.
+End Product.
+
+(* one Buffer system with its output trace; a refused / faulting op leaves it as it is *)
+Definition bsys : Type := (state * list out)%type.
+Definition bstep (s : bsys) (o : op) : bsys :=
+  match step_c (fst s) o with Ok (st', r) => (st', (snd s ++ [r])%list) | _ => s end.
+Definition brun (s : bsys) (ops : list op) : bsys := fold_left bstep ops s.
+
+Lemma buffers_independent : forall (ops : list (op + op)) (s : bsys * bsys),
+  pair_run _ _ _ _ bstep bstep s ops = (brun (fst s) (lefts _ _ ops), brun (snd s) (rights _ _ ops)).
+Proof. intros. apply pair_run_split. Qed.
